@@ -60,6 +60,7 @@ MODEL_HASHES = {
     'ts:__Vec$reserve': '13e3c18a9de37457',
     'ts:__Vec$set': 'aaf3c7a311baabb5',
     'ts:__Vec$withCapacity': '5d09373aade7b22c',
+    'wat:__$getBuiltinString': '462c2704d6b48c4e',
     'wat:__$strGet': '660e399d2d10f504',
     'wat:__$strLen': 'fc496adf89ee49a0',
     'wat:__$unwrapI31': '58022580e0f869b3',
@@ -70,21 +71,21 @@ MODEL_HASHES = {
     'wat:__Vec$capacity': '042a5db735a83b98',
     'wat:__Vec$empty': '31ac9bbdf14ec1d9',
     'wat:__Vec$eq': 'b008cd8229191f80',
-    'wat:__Vec$get': '2cb069c5def6d8ef',
+    'wat:__Vec$get': '3b5466ae809413c2',
     'wat:__Vec$length': '14d41ab7a3c355e3',
     'wat:__Vec$of': '1d462ca1d8c86ca0',
-    'wat:__Vec$pop': '985d10e0d47bbfc0',
+    'wat:__Vec$pop': '36475afbd89f831b',
     'wat:__Vec$push': 'f6eb812c92fdf966',
     'wat:__Vec$reserve': 'e1a697a95e7ecbc4',
-    'wat:__Vec$set': '3b43105bf30510fc',
+    'wat:__Vec$set': '0ea79743ff7deda3',
     'wat:__Vec$withCapacity': 'f21d1ea90a59ec14',
-    'wat:data $d0': 'c30fc0adab75c078',
+    'wat:data $d0': 'd8fc1b6eb110f371',
     'wat:type $_Str': '6c52b6fb74165c25',
     'wat:type $_Vec': 'cfefce582753187b',
     'wat:type $_VecData': 'ca5fe3750b29bcdb',
 }
 
-WAT_FUNCS = ['__Str$eq', '__Str$fromInt', '__Str$toInt', '__Str$concat', '__$strLen', '__$strGet', '__$unwrapI31',
+WAT_FUNCS = ['__$getBuiltinString', '__Str$eq', '__Str$fromInt', '__Str$toInt', '__Str$concat', '__$strLen', '__$strGet', '__$unwrapI31',
              '__Vec$empty', '__Vec$withCapacity', '__Vec$of', '__Vec$length', '__Vec$capacity', '__Vec$reserve',
              '__Vec$push', '__Vec$pop', '__Vec$get', '__Vec$set', '__Vec$eq']
 TS_FUNCS = ['__Str$concat', '__Process$println', '__Str$toInt', '__Str$fromInt', '__Process$panic', '__Vec$empty',
@@ -870,12 +871,12 @@ def rt(ck, tier, seed):
 
 
 def trap_difference(w, t):
-    """Both engines on one trap module: the documented Vec panics are compared by class, user panics by message."""
+    """Both engines on one trap module: every panic is compared by message."""
     if w['lines'] != t['lines']:
         return 'printed lines differ: %r vs %r' % (w['lines'][-2:], t['lines'][-2:])
     kw, kt = w['ending']['kind'], t['ending']['kind']
-    if kw == 'unreachable' and kt == 'vec-bounds':
-        return None
+    if kt == 'vec-bounds':
+        kt = 'panic'          # the TypeScript runner labels the two documented Vec messages; they are ordinary panics
     if kw == kt == 'panic':
         return None if w['ending']['detail'] == t['ending']['detail'] else 'panic messages differ'
     if kw == kt == 'return':
